@@ -1,6 +1,6 @@
 (** C15 — property theorems only (proved in IO/DddmpProofs.v; model IO/Dddmp.v). *)
 From Coq Require Import List NArith ZArith Bool.
-From OxiVerif Require Import IO.Dddmp IO.DddmpProofs.
+From OxiVerif Require Import IO.Dddmp IO.DddmpProofs IO.DddmpAsciiProofs.
 Import ListNotations.
 Open Scope N_scope.
 
@@ -153,11 +153,48 @@ Theorem C15_var_names_strict : forall names,
 Proof. exact export_var_names_strict. Qed.
 Print Assumptions C15_var_names_strict.
 
+(** (e) ASCII node lines: decimal numbers and edge lists are read back *)
+Theorem C15_decimal_roundtrip : forall n, digits_val (dec n) 0 = Some n.
+Proof. exact digits_val_dec. Qed.
+Print Assumptions C15_decimal_roundtrip.
+
+Theorem C15_parse_usize_dec : forall n tl, n < usize_limit -> sep_tail tl ->
+  parse_usize (dec n ++ tl) = Ok (tl, n).
+Proof. exact parse_usize_dec. Qed.
+Print Assumptions C15_parse_usize_dec.
+
+Theorem C15_parse_edge_list : forall t e,
+  Z.abs_N t <= isize_max -> Z.abs_N e <= isize_max ->
+  parse_edge_list (dec_z t ++ [32] ++ dec_z e) = Ok [t; e].
+Proof. exact parse_edge_list_two. Qed.
+Print Assumptions C15_parse_edge_list.
+
+Theorem C15_ascii_terminal_line : forall k slm st id desc e,
+  id < usize_limit -> token desc -> parse_terminal k desc = Some e ->
+  import_ascii_line k true slm st id (term_text id desc) = Ok (mkS (st_store st) (st_nodes st ++ [e])).
+Proof. exact import_ascii_line_term. Qed.
+Print Assumptions C15_ascii_terminal_line.
+
+(** the whole ASCII node section, for BDD, BCDD, ZBDD and MTBDD: terminals [1..T] first,
+    node ID [T + 1 + i] is renamed to unique-table index [i] *)
+Theorem C15_ascii_nodes_roundtrip : forall k slm descs tedges l rest,
+  terms_ok k descs tedges ->
+  Forall (fun e => exists v, ce_ref e = RTerm v) tedges ->
+  incr slm -> Forall (fun x => x < level_max) slm ->
+  awf_dag k slm tedges l ->
+  N.of_nat (length tedges) + 1 + N.of_nat (length l) <= isize_max ->
+  N.of_nat (length slm) <= 4294967296 ->
+  import_ascii k true slm (N.of_nat (length descs + length l))
+               (export_ascii_nodes (map ATerm descs ++ map ainner l) ++ rest)
+  = Ok (astate slm tedges l (length l), rest).
+Proof. exact import_export_ascii. Qed.
+Print Assumptions C15_ascii_nodes_roundtrip.
+
+Theorem C15_ascii_example_wf : terms_ok KBDD ex_descs ex_tedges /\ awf_dag KBDD [0; 1] ex_tedges ex_adag.
+Proof. exact (conj ex_terms_ok ex_adag_wf). Qed.
+Print Assumptions C15_ascii_example_wf.
+
 (* Not proved (checked on every exported file by the correspondence run instead):
-   - C15_ascii_nodes_roundtrip_partial: the analogue of C15_nodes_roundtrip for
-     [import_ascii] needs a model of the exporter's decimal printing
-       forall k slm l rest, wf .. -> import_ascii k true slm (N.of_nat (length (dag_of l)))
-                                      (export_ascii (dag_of l) ++ rest) = Ok (state_of .., rest)
    - C15_var_names_unique_partial: pairwise distinct non-empty names are written as
      pairwise distinct names
        forall strict names out err, NoDup (filter nonempty names) ->
